@@ -1024,3 +1024,439 @@ Proof.
   rewrite transfer_ignored_step; auto; try (left; reflexivity).
   cbn. rewrite rn_eta. reflexivity.
 Qed.
+
+(* ------------------------------------------------------------------ *)
+(* instantiation of the frame lemmas at ty := MsgTimeoutNow *)
+Notation TN := MsgTimeoutNow (only parsing).
+
+Ltac spec_hyps t :=
+  lazymatch type of t with
+  | ((_ =? _) = false) -> _ => spec_hyps constr:(t (@eq_refl bool false))
+  | _ => t
+  end.
+Ltac tn L := spec_hyps constr:(L MsgTimeoutNow).
+
+Definition maybe_commit_tn := ltac:(let L := tn maybe_commit_cf in exact L).
+Definition bcast_append_tn := ltac:(let L := tn bcast_append_cf in exact L).
+Definition bcast_heartbeat_tn := ltac:(let L := tn bcast_heartbeat_cf in exact L).
+Definition bcast_heartbeat_with_ctx_tn := ltac:(let L := tn bcast_heartbeat_with_ctx_cf in exact L).
+Definition send_append_to_tn := ltac:(let L := tn send_append_to_cf in exact L).
+Definition maybe_send_append_tn := ltac:(let L := tn maybe_send_append_cf in exact L).
+Definition append_entry_tn := ltac:(let L := tn append_entry_cf in exact L).
+Definition respond_reads_tn := ltac:(let L := tn respond_reads_cf in exact L).
+Definition handle_ready_read_index_tn := ltac:(let L := tn handle_ready_read_index_cf in exact L).
+Definition filter_conf_changes_tn := ltac:(let L := tn filter_conf_changes_cf in exact L).
+Definition handle_append_response_tn := ltac:(let L := tn handle_append_response_shape in exact L).
+Definition handle_heartbeat_response_tn := ltac:(let L := tn handle_heartbeat_response_cf in exact L).
+Definition handle_snapshot_status_tn := ltac:(let L := tn handle_snapshot_status_cf in exact L).
+Definition handle_unreachable_tn := ltac:(let L := tn handle_unreachable_cf in exact L).
+Definition for_each_peer_tn := ltac:(let L := tn for_each_peer_cf in exact L).
+Definition reset_tn := ltac:(let L := tn reset_wf in exact L).
+Definition become_follower_tn := ltac:(let L := tn become_follower_wf in exact L).
+Definition become_leader_tn := ltac:(let L := tn become_leader_wf in exact L).
+Definition hup_tn := ltac:(let L := tn hup_wf in exact L).
+Definition maybe_commit_by_vote_tn := ltac:(let L := tn maybe_commit_by_vote_wf in exact L).
+Definition step_candidate_tn := ltac:(let L := tn step_candidate_wf in exact L).
+Definition step_follower_tn := ltac:(let L := tn step_follower_wf in exact L).
+Definition post_conf_change_shape_tn := ltac:(let L := tn post_conf_change_shape in exact L).
+Definition post_conf_change_tn := ltac:(let L := tn post_conf_change_wf in exact L).
+Definition send_request_snapshot_tn := ltac:(let L := tn send_request_snapshot_cf in exact L).
+Definition cf_wf_tn := cf_wf MsgTimeoutNow.
+Definition wf_trans_tn := wf_trans MsgTimeoutNow.
+
+
+Ltac cft_fwd :=
+  repeat match goal with
+  | H : maybe_commit _ = Ok (_, _) |- _ => apply maybe_commit_tn in H
+  | H : bcast_append _ = Ok _ |- _ => apply bcast_append_tn in H
+  | H : bcast_heartbeat _ = Ok _ |- _ => apply bcast_heartbeat_tn in H
+  | H : bcast_heartbeat_with_ctx _ _ = Ok _ |- _ => apply bcast_heartbeat_with_ctx_tn in H
+  | H : send_append_to _ _ = Ok _ |- _ => apply send_append_to_tn in H
+  | H : maybe_send_append _ _ _ _ = Ok (_, _, _) |- _ => apply maybe_send_append_tn in H
+  | H : append_entry _ _ = Ok (_, _) |- _ => apply append_entry_tn in H
+  | H : respond_reads _ _ = Ok _ |- _ => apply respond_reads_tn in H
+  | H : handle_heartbeat_response _ _ = Ok _ |- _ => apply handle_heartbeat_response_tn in H
+  | H : handle_snapshot_status _ _ = Ok _ |- _ => apply handle_snapshot_status_tn in H
+  | H : handle_unreachable _ _ = Ok _ |- _ => apply handle_unreachable_tn in H
+  | H : send_request_snapshot _ = Ok _ |- _ => apply send_request_snapshot_tn in H
+  end.
+
+Ltac wft_peel :=
+  lazymatch goal with
+  | |- wf _ _ (put_pr ?r1 _ _) =>
+      apply (wf_same MsgTimeoutNow _ r1); [solve_upd r1|solve_upd r1|left; solve_upd r1|]; wft_peel
+  | |- wf _ _ (set_conf_prs ?r1 _ _) =>
+      apply (wf_same MsgTimeoutNow _ r1); [solve_upd r1|solve_upd r1|left; solve_upd r1|]; wft_peel
+  | |- wf _ _ (set _ _ ?r1) =>
+      apply (wf_same MsgTimeoutNow _ r1);
+        [solve_upd r1|solve_upd r1|first [left; solve_upd r1|right; reflexivity]|]; wft_peel
+  | _ => idtac
+  end.
+
+Ltac wft_chain :=
+  wft_peel;
+  first [ assumption | apply wf_refl
+        | match goal with
+          | H : wf _ ?a ?b |- wf _ _ ?b => eapply wf_trans; [|exact H]; wft_chain
+          | H : cf _ ?a ?b |- wf _ _ ?b => eapply wf_trans; [|exact (cf_wf _ _ _ H)]; wft_chain
+          end ].
+
+Ltac wft_fwd :=
+  repeat match goal with
+  | H : reset _ _ = Ok _ |- _ => apply reset_tn in H
+  | H : become_follower _ _ _ = Ok _ |- _ => apply become_follower_tn in H
+  | H : become_leader _ = Ok _ |- _ => apply become_leader_tn in H
+  | H : maybe_commit_by_vote _ _ = Ok _ |- _ => apply maybe_commit_by_vote_tn in H
+  | H : step_candidate _ _ = Ok (_, _) |- _ => apply step_candidate_tn in H
+  | H : step_follower _ _ = Ok (_, _) |- _ => apply step_follower_tn in H
+  | H : post_conf_change _ = Ok (_, _) |- _ => apply post_conf_change_tn in H
+  end.
+
+(* ------------------------------------------------------------------ *)
+(* 1. timeout_now_guard *)
+
+(* a MsgTimeoutNow x is justified in state r': it is addressed to the pending transfer
+   target, carries the leader's term, and the target's matched index is the leader's
+   last log index *)
+Definition tn_ok (r' : raft) (x : msg) : Prop :=
+  m_type x = MsgTimeoutNow /\ m_term x = r_term r' /\
+  r_lead_transferee r' = Some (m_to x) /\
+  exists p, get_pr r' (m_to x) = Some p /\ matched p = last_index (r_log r').
+
+(* between r and r' at most one MsgTimeoutNow was queued, and if so it is justified in r' *)
+Definition tn_guarded (r r' : raft) : Prop :=
+  sel MsgTimeoutNow (r_msgs r') = sel MsgTimeoutNow (r_msgs r) \/
+  exists x, sel MsgTimeoutNow (r_msgs r') = sel MsgTimeoutNow (r_msgs r) ++ [x] /\ tn_ok r' x.
+
+Lemma send_timeout_now_spec r to r' : send_timeout_now r to = Ok r' ->
+  exists x, r' = r <| r_msgs := r_msgs r ++ [x] |> /\
+    m_type x = MsgTimeoutNow /\ m_to x = to /\ m_term x = r_term r.
+Proof.
+  unfold send_timeout_now. intros H. apply send_spec in H.
+  destruct H as (x & E & A & B & _ & _ & _ & F).
+  exists x. repeat split; auto. apply F; [reflexivity|discriminate|discriminate].
+Qed.
+
+Lemma send_timeout_now_guard r0 r3 to p r' :
+  sel MsgTimeoutNow (r_msgs r3) = sel MsgTimeoutNow (r_msgs r0) ->
+  r_lead_transferee r3 = Some to -> get_pr r3 to = Some p -> matched p = last_index (r_log r3) ->
+  send_timeout_now r3 to = Ok r' ->
+  ctl r' = ctl r3 /\
+  exists x, sel MsgTimeoutNow (r_msgs r') = sel MsgTimeoutNow (r_msgs r0) ++ [x] /\
+            tn_ok r' x /\ m_to x = to.
+Proof.
+  intros Hs Hl Hp Hm H. apply send_timeout_now_spec in H. destruct H as (x & -> & A & B & C0).
+  split; [reflexivity|]. exists x. split; [|split; [|exact B]].
+  - change (r_msgs (r3 <| r_msgs := r_msgs r3 ++ [x] |>)) with (r_msgs r3 ++ [x]).
+    rewrite sel_app, sel_one_same, Hs; [reflexivity|]. rewrite A. reflexivity.
+  - unfold tn_ok. rewrite B. repeat split; try assumption. exists p. split; assumption.
+Qed.
+
+Lemma tl_started_facts r m r' : tl_started r m r' ->
+  ctl r' = ctl (tl_start r (m_from m)) /\ tn_guarded r r'.
+Proof.
+  intros (Hself & Hne & Hlr & pr & Hpr & [[Hm H]|[Hm (r1 & pr1 & b & H & ->)]]).
+  - eapply send_timeout_now_guard in H; try reflexivity; try eassumption.
+    destruct H as (A & x & B & C0 & _). split; [exact A|]. right. exists x. split; assumption.
+  - apply maybe_send_append_tn in H. destruct H as [A B]. split; [exact B|]. left. exact A.
+Qed.
+
+Inductive sl_out (r : raft) (m : msg) (r' : raft) : Prop :=
+| SL_quiet : cf MsgTimeoutNow r r' -> sl_out r m r'
+| SL_down : m_type m = MsgCheckQuorum -> wf MsgTimeoutNow r r' ->
+    r_lead_transferee r' = None -> r_state r' = Follower -> r_election_elapsed r' = 0 ->
+    sl_out r m r'
+| SL_tn x : m_type m = MsgAppendResponse -> ctl r' = ctl r ->
+    r_lead_transferee r = Some (m_from m) ->
+    sel MsgTimeoutNow (r_msgs r') = sel MsgTimeoutNow (r_msgs r) ++ [x] -> tn_ok r' x ->
+    m_to x = m_from m -> sl_out r m r'
+| SL_cancel o : m_type m = MsgTransferLeader -> m_from m = r_id r ->
+    r_lead_transferee r = Some o -> o <> r_id r -> r' = r <| r_lead_transferee := None |> ->
+    sl_out r m r'
+| SL_start : m_type m = MsgTransferLeader -> tl_started r m r' -> sl_out r m r'.
+
+Lemma quorum_recently_active_conf t p t' a :
+  quorum_recently_active t p = (t', a) -> t_conf t' = t_conf t.
+Proof. unfold quorum_recently_active. intros H. inversion H; reflexivity. Qed.
+
+Lemma step_leader_shape r m r' c : step_leader r m = Ok (r', c) -> sl_out r m r'.
+Proof.
+  intros H. unfold step_leader in H.
+  destruct (m_type m =? MsgBeat).
+  { inv_bind H. inversion H; subst. apply SL_quiet. cft_fwd. assumption. }
+  destruct (m_type m =? MsgCheckQuorum) eqn:Ecq.
+  { apply N.eqb_eq in Ecq.
+    destruct (quorum_recently_active (r_prs r) (r_id r)) as [prs' active] eqn:Eq.
+    apply quorum_recently_active_conf in Eq.
+    assert (Hr0 : cf MsgTimeoutNow r (r <| r_prs := prs' |>)).
+    { split; [reflexivity|]. unfold ctl, conf_of. cbn. rewrite Eq. reflexivity. }
+    destruct (negb active).
+    - inv_bind H. inversion H; subst; clear H.
+      pose proof (become_follower_clears _ _ _ _ Hx) as (A & B & C0).
+      apply become_follower_tn in Hx.
+      apply SL_down; auto.
+    - inversion H; subst. apply SL_quiet. exact Hr0. }
+  destruct (m_type m =? MsgPropose).
+  { destruct (m_entries m); [discriminate|].
+    destruct (get_pr r (r_id r)); [|inversion H; apply SL_quiet, cf_refl].
+    destruct (r_lead_transferee r); [inversion H; apply SL_quiet, cf_refl|].
+    destruct (filter_conf_changes r (e :: l) (m_ccinfo m) 0) as [[r1 ents] ok] eqn:Ef.
+    apply filter_conf_changes_tn in Ef.
+    destruct (negb ok); [inversion H; subst; apply SL_quiet; exact Ef|].
+    inv_bind H. destruct x as [r2 appended]. cft_fwd.
+    destruct (negb appended).
+    - inversion H; subst. apply SL_quiet. eapply cf_trans; eassumption.
+    - inv_bind H. inversion H; subst. cft_fwd. apply SL_quiet.
+      eapply cf_trans; [exact Ef|]. eapply cf_trans; eassumption. }
+  destruct (m_type m =? MsgReadIndex).
+  { inv_bind H. destruct (negb x); [inversion H; apply SL_quiet, cf_refl|].
+    assert (Hans : forall r' c,
+      (x <- handle_ready_read_index r m (committed (r_log r)) ;;
+       (let '(r1, om) := x in
+        r2 <- match om with Some mm => send r1 mm | None => Ok r1 end ;; Ok (r2, E_OK)))
+      = Ok (r', c) -> cf MsgTimeoutNow r r').
+    { clear. intros r' c H. inv_bind H. destruct x as [r1 om].
+      apply handle_ready_read_index_tn in Hx. destruct Hx as [A B].
+      inv_bind H. inversion H; subst; clear H.
+      destruct om as [mm|]; [|inversion Hx; subst; exact A].
+      apply (send_cf MsgTimeoutNow) in Hx; [|rewrite B; reflexivity].
+      eapply cf_trans; eassumption. }
+    match type of H with (if ?c then _ else _) = _ => destruct c end;
+      [apply SL_quiet; eapply Hans; exact H|].
+    destruct (ro_option (r_read_only r) =? 0); [|apply SL_quiet; eapply Hans; exact H].
+    inv_bind H. inv_bind H. inv_bind H. inversion H; subst. cft_fwd. apply SL_quiet. cf_solve. }
+  destruct (m_type m =? MsgAppendResponse) eqn:Ear.
+  { apply N.eqb_eq in Ear. inv_bind H. inversion H; subst; clear H.
+    apply handle_append_response_tn in Hx.
+    destruct Hx as [Hx|(r3 & p & A & B & C0 & D & E)]; [apply SL_quiet; exact Hx|].
+    destruct A as [A1 A2].
+    eapply send_timeout_now_guard in E; try eassumption.
+    destruct E as (E1 & x & E2 & E3 & E4).
+    apply (SL_tn _ _ _ x); auto; try congruence.
+    unfold ctl in A2. inversion A2. congruence. }
+  destruct (m_type m =? MsgHeartbeatResponse).
+  { inv_bind H. inversion H; subst. cft_fwd. apply SL_quiet. assumption. }
+  destruct (m_type m =? MsgSnapStatus).
+  { inv_bind H. inversion H; subst. cft_fwd. apply SL_quiet. assumption. }
+  destruct (m_type m =? MsgUnreachable).
+  { inv_bind H. inversion H; subst. cft_fwd. apply SL_quiet. assumption. }
+  destruct (m_type m =? MsgTransferLeader) eqn:Etl.
+  { apply N.eqb_eq in Etl. inv_bind H. inversion H; subst; clear H.
+    apply handle_transfer_leader_shape in Hx.
+    destruct Hx as [[-> _]|[(A & (o & B & C0) & ->)|Hx]].
+    - apply SL_quiet, cf_refl.
+    - eapply SL_cancel; eauto.
+    - apply SL_start; assumption. }
+  inversion H; subst. apply SL_quiet, cf_refl.
+Qed.
+
+(* ------------------------------------------------------------------ *)
+(* [step] = term prologue, then the role-specific part *)
+Definition step_pre (r : raft) (m : msg) : Res (raft * N + raft) :=
+  let t := m_type m in
+  if m_term m =? 0 then Ok (inr r)
+  else if r_term r <? m_term m then
+    let is_vote_req := (t =? MsgRequestVote) || (t =? MsgRequestPreVote) in
+    let force := list_eqb (m_context m) CAMPAIGN_TRANSFER in
+    let in_lease := r_check_quorum r && negb (r_leader_id r =? INVALID_ID)
+                    && (r_election_elapsed r <? r_election_timeout r) in
+    if is_vote_req && negb force && in_lease then Ok (inl (r, E_OK))
+    else if (t =? MsgRequestPreVote)
+            || ((t =? MsgRequestPreVoteResponse) && negb (m_reject m))
+    then Ok (inr r)
+    else if (t =? MsgAppend) || (t =? MsgHeartbeat) || (t =? MsgSnapshot)
+    then r' <- become_follower r (m_term m) (m_from m) ;; Ok (inr r')
+    else r' <- become_follower r (m_term m) INVALID_ID ;; Ok (inr r')
+  else if m_term m <? r_term r then
+    if (r_check_quorum r || r_pre_vote r) && ((t =? MsgHeartbeat) || (t =? MsgAppend)) then
+      r' <- send r (new_message (m_from m) MsgAppendResponse None) ;; Ok (inl (r', E_OK))
+    else if t =? MsgRequestPreVote then
+      r' <- send r ((new_message (m_from m) MsgRequestPreVoteResponse None)
+                      <| m_term := r_term r |> <| m_reject := true |>) ;;
+      Ok (inl (r', E_OK))
+    else Ok (inl (r, E_OK))
+  else Ok (inr r).
+
+Definition vote_granted (r : raft) (m : msg) : bool :=
+  ((r_vote r =? m_from m)
+   || ((r_vote r =? INVALID_ID) && (r_leader_id r =? INVALID_ID))
+   || ((m_type m =? MsgRequestPreVote) && (r_term r <? m_term m))).
+
+Definition step_main (r : raft) (m : msg) : Res (raft * N) :=
+  if m_type m =? MsgHup then r' <- hup r false ;; Ok (r', E_OK)
+  else if (m_type m =? MsgRequestVote) || (m_type m =? MsgRequestPreVote) then
+    utd <- is_up_to_date (r_log r) (m_index m) (m_log_term m) ;;
+    rt <- vote_resp_msg_type (m_type m) ;;
+    if vote_granted r m && utd
+       && ((last_index (r_log r) <? m_index m) || (r_priority r <=? get_priority m)%Z)
+    then
+      r1 <- send r ((new_message (m_from m) rt None) <| m_reject := false |>
+                      <| m_term := m_term m |>) ;;
+      if m_type m =? MsgRequestVote
+      then Ok (r1 <| r_election_elapsed := 0 |> <| r_vote := m_from m |>, E_OK)
+      else Ok (r1, E_OK)
+    else
+      ci <- commit_info (r_log r) ;;
+      r1 <- send r ((new_message (m_from m) rt None) <| m_reject := true |>
+                      <| m_term := r_term r |> <| m_commit := fst ci |>
+                      <| m_commit_term := snd ci |>) ;;
+      r2 <- maybe_commit_by_vote r1 m ;; Ok (r2, E_OK)
+  else
+    match r_state r with
+    | PreCandidate | Candidate => step_candidate r m
+    | Follower => step_follower r m
+    | Leader => step_leader r m
+    end.
+
+Lemma step_eq r m :
+  step r m = (pre <- step_pre r m ;;
+              match pre with inl ret => Ok ret | inr r0 => step_main r0 m end).
+Proof. reflexivity. Qed.
+
+Lemma step_main_same_term r m : same_term_msg r m -> step r m = step_main r m.
+Proof. intros H. rewrite (step_same_term _ _ H). reflexivity. Qed.
+
+Lemma step_pre_shape r m x : step_pre r m = Ok x ->
+  x = inr r \/
+  (exists r1 c, x = inl (r1, c) /\ cf MsgTimeoutNow r r1) \/
+  (r_term r < m_term m /\ exists r0 l, x = inr r0 /\ become_follower r (m_term m) l = Ok r0).
+Proof.
+  intros H. unfold step_pre in H. cbn zeta in H.
+  destruct (m_term m =? 0); [inversion H; left; reflexivity|].
+  destruct (r_term r <? m_term m) eqn:Elt.
+  - apply N.ltb_lt in Elt.
+    match type of H with (if ?c then _ else _) = _ => destruct c end.
+    { inversion H. right; left. do 2 eexists. split; [reflexivity|apply cf_refl]. }
+    match type of H with (if ?c then _ else _) = _ => destruct c end;
+      [inversion H; left; reflexivity|].
+    match type of H with (if ?c then _ else _) = _ => destruct c end;
+      inv_bind H; inversion H; subst; right; right; (split; [exact Elt|]); eauto.
+  - destruct (m_term m <? r_term r); [|inversion H; left; reflexivity].
+    right; left.
+    match type of H with (if ?c then _ else _) = _ => destruct c end.
+    { inv_bind H. inversion H; subst. do 2 eexists. split; [reflexivity|].
+      eapply send_cf; [eassumption|reflexivity]. }
+    destruct (m_type m =? MsgRequestPreVote).
+    { inv_bind H. inversion H; subst. do 2 eexists. split; [reflexivity|].
+      eapply send_cf; [eassumption|reflexivity]. }
+    inversion H. do 2 eexists. split; [reflexivity|apply cf_refl].
+Qed.
+
+Lemma vote_resp_msg_type_not_tn t rt : vote_resp_msg_type t = Ok rt -> (rt =? MsgTimeoutNow) = false.
+Proof.
+  unfold vote_resp_msg_type. destruct (t =? MsgRequestVote); [intros H; inversion H; reflexivity|].
+  destruct (t =? MsgRequestPreVote); [intros H; inversion H; reflexivity|discriminate].
+Qed.
+
+Lemma maybe_commit_by_vote_leader r m : is_leader r = true -> maybe_commit_by_vote r m = Ok r.
+Proof.
+  intros H. unfold maybe_commit_by_vote. rewrite H, orb_true_r.
+  destruct ((m_commit m =? 0) || (m_commit_term m =? 0)); reflexivity.
+Qed.
+
+Lemma hup_leader r tl : is_leader r = true -> hup r tl = Ok r.
+Proof. intros H. unfold hup. rewrite H. reflexivity. Qed.
+
+Inductive sm_out (r : raft) (m : msg) (r' : raft) : Prop :=
+| SM_quiet : cf MsgTimeoutNow r r' -> sm_out r m r'
+| SM_grant r1 : m_type m = MsgRequestVote -> vote_granted r m = true ->
+    cf MsgTimeoutNow r r1 -> r' = r1 <| r_election_elapsed := 0 |> <| r_vote := m_from m |> ->
+    sm_out r m r'
+| SM_leader : r_state r = Leader -> sl_out r m r' -> sm_out r m r'
+| SM_other : r_state r <> Leader -> wf MsgTimeoutNow r r' -> sm_out r m r'.
+
+Lemma step_main_shape r m r' c : step_main r m = Ok (r', c) -> sm_out r m r'.
+Proof.
+  intros H. unfold step_main in H.
+  assert (Hst : {r_state r = Leader} + {r_state r <> Leader})
+    by (destruct (r_state r); auto; right; discriminate).
+  assert (Hil : r_state r = Leader -> is_leader r = true) by (unfold is_leader; intros ->; reflexivity).
+  destruct (m_type m =? MsgHup).
+  { inv_bind H. inversion H; subst; clear H. destruct Hst as [Hs|Hs].
+    - rewrite hup_leader in Hx by auto. inversion Hx; subst. apply SM_quiet, cf_refl.
+    - apply SM_other; [exact Hs|]. eapply hup_tn; [right; reflexivity|exact Hx]. }
+  match type of H with (if ?c then _ else _) = _ => destruct c end.
+  { inv_bind H. inv_bind H. pose proof (vote_resp_msg_type_not_tn _ _ Hx0) as Hrt.
+    match type of H with (if ?c then _ else _) = _ => destruct c eqn:Eg end.
+    - inv_bind H. apply (send_cf MsgTimeoutNow) in Hx1; [|exact Hrt].
+      destruct (m_type m =? MsgRequestVote) eqn:Ev; inversion H; subst; clear H.
+      + apply N.eqb_eq in Ev. apply andb_prop in Eg. destruct Eg as [Eg _].
+        apply andb_prop in Eg. destruct Eg as [Eg _]. eapply SM_grant; eauto.
+      + apply SM_quiet. exact Hx1.
+    - inv_bind H. inv_bind H. inv_bind H. inversion H; subst; clear H.
+      apply (send_cf MsgTimeoutNow) in Hx2; [|exact Hrt].
+      destruct Hst as [Hs|Hs].
+      + assert (Hl1 : is_leader x2 = true).
+        { destruct Hx2 as [_ K]. unfold ctl in K. inversion K. unfold is_leader.
+          rewrite H0, Hs. reflexivity. }
+        rewrite maybe_commit_by_vote_leader in Hx3 by exact Hl1. inversion Hx3; subst.
+        apply SM_quiet. exact Hx2.
+      + apply SM_other; [exact Hs|]. apply maybe_commit_by_vote_tn in Hx3.
+        eapply wf_trans; [apply cf_wf; exact Hx2|exact Hx3]. }
+  destruct (r_state r) eqn:Es.
+  - apply SM_other; [congruence|]. eapply step_follower_tn; exact H.
+  - apply SM_other; [congruence|]. eapply step_candidate_tn; exact H.
+  - apply SM_leader; [exact Es|]. eapply step_leader_shape; exact H.
+  - apply SM_other; [congruence|]. eapply step_candidate_tn; exact H.
+Qed.
+
+(* ------------------------------------------------------------------ *)
+(* Theorem 1 *)
+
+(* the only two sources of a MsgTimeoutNow *)
+Definition tn_source (r : raft) (m : msg) (r' : raft) : Prop :=
+  r_state r = Leader /\
+  (m_type m = MsgAppendResponse \/ m_type m = MsgTransferLeader) /\
+  exists x, sel MsgTimeoutNow (r_msgs r') = sel MsgTimeoutNow (r_msgs r) ++ [x] /\
+            tn_ok r' x /\ m_to x = m_from m.
+
+Lemma wf_sel ty r r' : wf ty r r' -> sel ty (r_msgs r') = sel ty (r_msgs r).
+Proof. intros (A & _). exact A. Qed.
+
+Lemma cf_sel ty r r' : cf ty r r' -> sel ty (r_msgs r') = sel ty (r_msgs r).
+Proof. intros (A & _). exact A. Qed.
+
+Lemma sl_out_sources r m r' : r_state r = Leader -> sl_out r m r' ->
+  sel MsgTimeoutNow (r_msgs r') = sel MsgTimeoutNow (r_msgs r) \/ tn_source r m r'.
+Proof.
+  intros Hs [H|H1 H2 _ _ _|x H1 H2 H3 H4 H5 H6|o H1 H2 H3 H4 ->|H1 H2].
+  - left. apply cf_sel. exact H.
+  - left. apply wf_sel. exact H2.
+  - right. split; [exact Hs|]. split; [left; exact H1|]. exists x. auto.
+  - left. reflexivity.
+  - pose proof H2 as (_ & _ & _ & pr & Hpr & [[Hm K]|[Hm (r1 & pr1 & b & K & ->)]]).
+    + right. split; [exact Hs|]. split; [right; exact H1|].
+      eapply send_timeout_now_guard in K; try reflexivity; try eassumption.
+      destruct K as (_ & x & B & C0 & D). exists x. auto.
+    + left. apply maybe_send_append_tn in K. destruct K as [A _]. exact A.
+Qed.
+
+Lemma sm_out_sources r m r' : sm_out r m r' ->
+  sel MsgTimeoutNow (r_msgs r') = sel MsgTimeoutNow (r_msgs r) \/ tn_source r m r'.
+Proof.
+  intros [H|r1 H1 H2 H3 ->|H1 H2|H1 H2].
+  - left. apply cf_sel. exact H.
+  - left. apply cf_sel in H3. exact H3.
+  - apply sl_out_sources; assumption.
+  - left. apply wf_sel. exact H2.
+Qed.
+
+Theorem timeout_now_sources r m r' c : step r m = Ok (r', c) ->
+  sel MsgTimeoutNow (r_msgs r') = sel MsgTimeoutNow (r_msgs r) \/ tn_source r m r'.
+Proof.
+  intros H. rewrite step_eq in H. inv_bind H.
+  apply step_pre_shape in Hx. destruct Hx as [->|[(r1 & c1 & -> & A)|(Hlt & r0 & l & -> & A)]].
+  - apply step_main_shape in H. apply sm_out_sources. exact H.
+  - inversion H; subst. left. apply cf_sel. exact A.
+  - apply step_main_shape in H.
+    pose proof (become_follower_clears _ _ _ _ A) as (_ & _ & Hf).
+    apply become_follower_tn in A. apply wf_sel in A. left.
+    destruct (sm_out_sources _ _ _ H) as [K|(K & _)]; congruence.
+Qed.
+
+Theorem timeout_now_guard r m r' c : step r m = Ok (r', c) -> tn_guarded r r'.
+Proof.
+  intros H. destruct (timeout_now_sources _ _ _ _ H) as [K|(_ & _ & x & A & B & _)].
+  - left. exact K.
+  - right. exists x. auto.
+Qed.
